@@ -472,20 +472,22 @@ def r03_6(chk: Check, ex, out):
 
 
 def rules(chk: Check) -> None:
-    ex, out = r03_1(chk)
-    r03_2(chk)
-    r03_3(chk)
-    r03_45(chk)
-    r03_6(chk, ex, out)
+    r1 = chk.stage(r03_1, chk)
+    for grp in (r03_2, r03_3, r03_45):
+        chk.stage(grp, chk)
+    if r1 is not None:
+        chk.stage(r03_6, chk, r1[0], r1[1])
     # R03.7: the bracket of v+ and the shock integration evaluate the sound speed / enthalpy of the phase in FRONT of the wall at T+
     # (side typing shared with C02 R02.4, restricted to the functions on the path that enforces the Tn boundary condition)
     from . import c02
-    c02.r02_4(Remap(chk, {"R02.4": "R03.7"}, only=lambda r, k, w: k in ("sides|Hydrodynamics.findMatching", "sides|Hydrodynamics.solveHydroShock",
+    chk.stage(c02.r02_4, Remap(chk, {"R02.4": "R03.7"}, only=lambda r, k, w: k in ("sides|Hydrodynamics.findMatching", "sides|Hydrodynamics.solveHydroShock",
                                                                           "sides|Hydrodynamics.strongestShock", "sides|Hydrodynamics.efficiencyFactor",
                                                                           "sides|Hydrodynamics.findvwLTE", "sides|Hydrodynamics.minVelocity")))
     chk.floor("R03.7", 2)
     # R03.8: a v+ / T root search that is entered after a sign-change test brackets between the tested points;  R03.9: which side of the Jouguet
     # velocity a wall is on is decided with the model's own vJ everywhere (the shock wave of a hybrid is not dropped from kappa)
     from .shared import guarded_brackets, own_jouguet_velocity
-    guarded_brackets(chk, "R03.8", ["hydrodynamics:Hydrodynamics.findMatching", "hydrodynamics:Hydrodynamics.findvwLTE", "hydrodynamics:Hydrodynamics.matchDeton", "hydrodynamics:Hydrodynamics.solveHydroShock", "hydrodynamics:Hydrodynamics.strongestShock", "hydrodynamics:Hydrodynamics.findJouguetVelocity"], floor=2)
-    own_jouguet_velocity(chk, "R03.9")
+    chk.stage(guarded_brackets, chk, "R03.8", ["hydrodynamics:Hydrodynamics.findMatching", "hydrodynamics:Hydrodynamics.findvwLTE", "hydrodynamics:Hydrodynamics.matchDeton", "hydrodynamics:Hydrodynamics.solveHydroShock", "hydrodynamics:Hydrodynamics.strongestShock", "hydrodynamics:Hydrodynamics.findJouguetVelocity"], floor=2)
+    chk.stage(own_jouguet_velocity, chk, "R03.9")
+    from .shared import per_object_state
+    chk.stage(per_object_state, chk, "R03.9", ("Hydrodynamics", "HydrodynamicsTemplateModel", "Thermodynamics", "FreeEnergy", "InterpolatableFunction"))
